@@ -2,9 +2,10 @@
 # Builds the framework tools from files on disk only (offline).
 set -e
 export GOFLAGS=-mod=mod GOPROXY=off GOSUMDB=off GOTOOLCHAIN=local
-cd /verif/tools
-mkdir -p /verif/bin /verif/evidence
-go build -o /verif/bin/vcheck ./vcheck
-go build -o /verif/bin/vinstr ./vinstr
-go build -o /verif/bin/lackeydiff ./lackeydiff
+DIR=$(cd "$(dirname "$0")" && pwd)
+cd "$DIR/tools"
+mkdir -p "$DIR/bin" "$DIR/evidence"
+go build -o "$DIR/bin/vcheck" ./vcheck
+go build -o "$DIR/bin/vinstr" ./vinstr
+go build -o "$DIR/bin/lackeydiff" ./lackeydiff
 echo "setup ok"
